@@ -343,6 +343,8 @@ func runC14(c *Check) {
 	c.ruleTxBodyAlwaysForwarded("R13")
 	c.ruleWiring("R14", c.constructorsIn("spynode", "handlers"))
 	c.ruleRequestAgeFromRequestTime("R15")
+	c.ruleFieldWriters("R16", "state", "MemPool", "requests", map[string]string{"state.(*MemPool).AddRequest": "request recorded / renewed", "state.(*MemPool).AddTransaction": "the tx arrived", "state.(*MemPool).removeTransaction": "the tx confirmed or was evicted", "state.NewMemPool": "created"}, "the entry is the request window of the tx: released from elsewhere (e.g. on any peer's notfound) a second peer is asked inside the window")
+	c.ruleTrackerScannedOnEveryCheck("R17")
 
 	// ---- R6 every filled getdata is transmitted
 	if fn := c.Fn("R6", "state.(*TxTracker).Check"); fn != nil {
